@@ -19,7 +19,7 @@ RULE = ("cases from rng(seed, 17, 0, i): object category = i mod 6 of pose / ver
         "distinct = fingerprint(x, mutation); non-trivial = mutation other than copy with a decided expectation.")
 REQ = ["eval:equals-never-raises", "eval:equals-expected-true", "eval:equals-expected-false", "cat:pose", "cat:vertex", "cat:odo", "cat:lm", "cat:custom", "cat:graph", "mut:copy",
        "mut:perturb_below", "mut:perturb_above", "mut:class_same_size", "mut:class_other_size", "mut:id", "mut:edge_class", "mut:estimate_size", "mut:information_shape",
-       "mut:graph_extra_element", "mut:graph_order", "mut:offset", "mut:offset_id", "mut:edge_subclass", "class:graph_multi_scale"]
+       "mut:graph_extra_element", "mut:graph_order", "mut:offset", "mut:offset_id", "mut:edge_subclass", "class:graph_multi_scale", "class:default_tol_argument_omitted"]
 PLAN = {
     "quick": {"cases": 12000, "soft_s": 60, "min_nontrivial": 3000, "require": REQ},
     "thorough": {"cases": 800000, "soft_s": 1200, "min_nontrivial": 200000, "require": REQ},
@@ -151,7 +151,7 @@ def call_both(ctx, x, y, tol, expect_xy, expect_yx, feats, case):
     for a, b, exp, direction in ((x, y, expect_xy, "x.equals(y)"), (y, x, expect_yx, "y.equals(x)")):
         try:
             with np.errstate(all="ignore"):
-                res = a.equals(b, tol)
+                res = a.equals(b) if tol == 1e-6 else a.equals(b, tol)  # the documented default is 1e-6
         except Exception as ex:
             ctx.check("equals-never-raises", False, dict(feats, exception=type(ex).__name__, direction=direction), {"message": str(ex)[:200]}, case)
             continue
@@ -362,6 +362,9 @@ def run_case(ctx, i, rng):
     cat = KINDS[i % 6]
     ctx.count("cat:" + cat)
     tol = float(10 ** rng.uniform(-12, -2))
+    if rng.random() < 0.15:
+        tol = 1e-6
+        ctx.count("class:default_tol_argument_omitted")
     if cat == "graph":
         graph_case(ctx, rng, tol)
     else:
